@@ -3,6 +3,7 @@
 package bastion
 
 import (
+	bigint "math/big"
 	"bytes"
 	"encoding/base64"
 	"encoding/json"
@@ -337,7 +338,23 @@ func genMalformed(t *rapid.T) *BodyCase {
 	case "negative":
 		raw = "old -" + num + "\n" + restAfterSize
 	case "overflow":
-		raw = "old " + rapid.SampledFrom([]string{"18446744073709551616", "99999999999999999999", "184467440737095516150", "1" + strings.Repeat("0", 40)}).Draw(t, "big") + "\n" + restAfterSize
+		big := rapid.SampledFrom([]string{"18446744073709551616", "99999999999999999999", "184467440737095516150", "1" + strings.Repeat("0", 40)}).Draw(t, "big")
+		switch rapid.IntRange(0, 3).Draw(t, "bigk") {
+		case 1:
+			// 2^64 + d: every value just past the largest old size
+			v := new(bigint.Int).Add(new(bigint.Int).Lsh(bigint.NewInt(1), 64), bigint.NewInt(int64(rapid.IntRange(0, 3000).Draw(t, "bigd"))))
+			big = v.String()
+		case 2:
+			// 2^64-1 (or a value near it) with further digits appended
+			v := new(bigint.Int).Sub(new(bigint.Int).Lsh(bigint.NewInt(1), 64), bigint.NewInt(int64(rapid.IntRange(1, 40).Draw(t, "bigm"))))
+			big = v.String() + rapid.StringMatching("[0-9]{1,3}").Draw(t, "bigtail")
+		case 3:
+			// k * 2^64 + small: wraps to a small number in 64-bit arithmetic
+			v := new(bigint.Int).Mul(new(bigint.Int).Lsh(bigint.NewInt(1), 64), bigint.NewInt(int64(rapid.IntRange(1, 9).Draw(t, "bigmul"))))
+			v.Add(v, bigint.NewInt(int64(rapid.IntRange(0, 50).Draw(t, "bigadd"))))
+			big = v.String()
+		}
+		raw = "old " + big + "\n" + restAfterSize
 	case "sci":
 		raw = "old 1e3\n" + restAfterSize
 	case "hex":
